@@ -98,7 +98,8 @@ class PersistentMixin(Module):
         try:
             with open(self.persistentFile, 'r', encoding='utf-8') as f:
                 self.persistentData = json.load(f)
-        except (FileNotFoundError, ValueError):
+        except (FileNotFoundError, ValueError, RecursionError):
+            # missing or corrupt (undecodable, no JSON, absurdly nested JSON)
             self.persistentData = {}
         if not isinstance(self.persistentData, dict):
             # valid JSON, but not what we have written: treat like a corrupt file
